@@ -34,6 +34,7 @@ def _template(msg):
     """Message text with names and numbers abstracted (mechanism key part)."""
     t = msg.split("\n")[0]
     t = re.sub(r"'[^']*'", "'X'", t)
+    t = re.sub(r"^[a-z_$][a-z_0-9$]* is not constant", "X is not constant", t)
     t = re.sub(r"-?\d[\d_]*", "N", t)
     return t[:70]
 
@@ -67,7 +68,10 @@ def check_messages(errors, files, allow_synthetic=False):
             sl, sc = loc.start.line, loc.start.column
             if not (1 <= sl <= len(lines) + 1) or sc < 1 or (sl <= len(lines) and sc > len(lines[sl - 1]) + 1) or (
                     sl == len(lines) + 1 and sc != 1):
-                if not (len(lines) == 0 and (sl, sc) == (1, 1)):
+                if (sl, sc, loc.end.line, loc.end.column) == (0, 0, 0, 0):
+                    out.append(("no-location:" + _template(m.message), "message %r has no source position (0:0-0:0)" % (
+                        m.message[:60],)))
+                elif not (len(lines) == 0 and (sl, sc) == (1, 1)):
                     out.append(("position-outside-file:" + _template(m.message), "message %r at %s but file has %d lines%s" % (
                         m.message[:60], loc, len(lines),
                         (", line length %d" % len(lines[sl - 1])) if 1 <= sl <= len(lines) else "")))
@@ -185,7 +189,7 @@ def gen_case(rng, corpus):
         return "truncated", {main: "\n".join(lines[:rng.randint(0, len(lines))]) + rng.choice(["", "\n"])}, main
     if r < 0.42:
         return "text_mutant", {main: textgen.mutate_text(rng, text)}, main
-    if r < 0.90:
+    if r < 0.84:
         if len(text) > 4000 and rng.random() < 0.7:
             parts = text.split("\n\n\n")
             k = rng.randrange(len(parts))
@@ -197,6 +201,8 @@ def gen_case(rng, corpus):
                 if cname.endswith(imp):
                     files[imp] = ctext
         return "semantic_mutant", files, main
+    if r < 0.955:
+        return cross_file_case(rng, corpus, main)
     # multi-file sets: missing / cyclic / self / mutated imports
     k = rng.random()
     base = "struct Foo:\n  0 [+1]  UInt  x\n"
@@ -223,6 +229,68 @@ def _warm():
     common.repo_on_path()
     from compiler.front_end import parser
     parser.module_parser()  # load the 5 s tables outside any per-case budget
+
+
+def cross_file_case(rng, corpus, main):
+    """A short main module that imports a long library module (corpus file)
+    and refers to its types, fields, enum values and builtins in valid and
+    invalid ways: errors and their notes then span two files."""
+    cands = [c for c in corpus if c[1].count("\n") > 25 and "import " not in c[1]]
+    name, lib = cands[rng.randrange(len(cands))]
+    if rng.random() < 0.5:
+        from vlib import embgen, embspec
+        lib = embspec.render_module(embgen.Gen(rng, {"max_structs": 3}).gen_module())
+    structs = re.findall(r"^(?:struct|bits)\s+([A-Z]\w*)\s*(\([^)]*\))?:", lib, re.M)
+    enums = re.findall(r"^enum\s+([A-Z]\w*):", lib, re.M)
+    fields = {}
+    cur = None
+    for line in lib.split("\n"):
+        m = re.match(r"^(?:struct|bits|enum)\s+([A-Z]\w*)", line)
+        if m:
+            cur = m.group(1)
+            fields[cur] = []
+            continue
+        m = re.match(r"^\s+(?:.*\]\s+\S+\s+([a-z][a-z_0-9]*)\b|let\s+([a-z][a-z_0-9]*)\s*=|([A-Z][A-Z_0-9]+)\s*=)", line)
+        if m and cur:
+            fields[cur].extend([m.group(1) or m.group(2) or m.group(3)] * (4 if m.group(2) else 1))
+    lines = ['import "lib.emb" as lib', "", "struct Main:", "  0 [+1]  UInt  tag"]
+    off = 1
+    for _ in range(rng.randint(1, 4)):
+        k = rng.random()
+        if structs and k < 0.5:
+            t, params = rng.choice(structs)
+            fs = fields.get(t) or ["x"]
+            form = rng.random()
+            if form < 0.45:
+                lines.append("  let v%d = lib.%s.%s" % (off, t, rng.choice(fs + ["$size_in_bytes", "$max_size_in_bytes", "$min_size_in_bits"])))
+            elif form < 0.8:
+                args = "(%s)" % ", ".join(rng.choice(["1", "tag", "true", "lib.%s.%s" % (t, rng.choice(fs))])
+                                          for _ in range(rng.randint(1, 2))) if (params or rng.random() < 0.15) else ""
+                n = rng.choice([1, 2, 4, 8, 16, 64])
+                lines.append("  %d [+%d]  lib.%s%s  f%d" % (off, n, t, args, off))
+                off += n
+            else:
+                lines.append("  if tag == lib.%s.%s:" % (t, rng.choice(fs)))
+                lines.append("    %d [+1]  UInt  c%d" % (off, off))
+                off += 1
+        elif enums:
+            e = rng.choice(enums)
+            vs = fields.get(e) or ["AA"]
+            form = rng.random()
+            if form < 0.4:
+                lines.append("  %d [+%d]  lib.%s  e%d" % (off, rng.choice([1, 1, 2, 8, 9]), e, off))
+                off += 1
+            elif form < 0.7:
+                lines.append("  let w%d = lib.%s.%s" % (off, e, rng.choice(vs + ["NOPE", "x"])))
+            else:
+                lines.append("  let w%d = tag == lib.%s.%s ? 1 : lib.%s.%s" % (off, e, rng.choice(vs), e, rng.choice(vs)))
+        else:
+            lines.append("  let z%d = lib.%s" % (off, rng.choice(["Nope.x", "x", "Foo", "tag"])))
+        off += 1
+    text = "\n".join(lines) + "\n"
+    if rng.random() < 0.3:
+        text = textgen.semantic_mutate(rng, text, 1)
+    return "cross_file", {main: text, "lib.emb": lib}, main
 
 
 def batch(arg):
